@@ -270,5 +270,11 @@ func (p *Proxy) WaitReady(watchdog time.Duration) error {
 		}
 		time.Sleep(150 * time.Millisecond)
 	}
-	return fmt.Errorf("proxy not ready within %v: %s", watchdog, p.OutputTail(1500))
+	return &NotReadyError{Msg: fmt.Sprintf("proxy alive but not serving within %v: %s", watchdog, p.OutputTail(1500))}
 }
+
+// NotReadyError: the proxy process is alive but never started to route requests
+// (no topology adopted / backend handshakes never completed) within the watchdog.
+type NotReadyError struct{ Msg string }
+
+func (e *NotReadyError) Error() string { return e.Msg }
